@@ -45,6 +45,11 @@ pub enum Ev {
     UnsetEnv(String),
     Define,
     Parse(Intent),
+    /// the line of the intent followed by one token that cannot be parsed (0 unknown long flag,
+    /// 1 unknown short flag, 2 `--flag=oops` on a value-less flag), given to a fresh definition with
+    /// `ignore_errors(true)`: the parse recovers, and everything supplied before the fault keeps its origin
+    #[serde(alias = "ParseRecovering")]
+    Recover(Intent, u8),
 }
 
 #[derive(Clone, Debug, Hash, Serialize, Deserialize, PartialEq)]
@@ -120,9 +125,13 @@ pub fn value_ok(a: &ArgSpec, v: &[u8]) -> Result<(), &'static str> {
             }
         }
         Action::Count => {
+            let (lo, hi) = match &a.parser {
+                ValParser::Int { w: IntW::U8, range } => IntW::U8.language(*range),
+                _ => (0, 255),
+            };
             return match s {
                 Ok(t) => {
-                    if dec_in_range(t, 0, 255) {
+                    if dec_in_range(t, lo, hi) {
                         Ok(())
                     } else {
                         Err("bad-value")
@@ -157,6 +166,17 @@ pub fn value_ok(a: &ArgSpec, v: &[u8]) -> Result<(), &'static str> {
         ValParser::Int { w, range } => match s {
             Ok(t) => {
                 let (lo, hi) = w.language(*range);
+                if dec_in_range(t, lo, hi) {
+                    Ok(())
+                } else {
+                    Err("bad-value")
+                }
+            }
+            Err(_) => Err("non-utf8"),
+        },
+        ValParser::Edge(k) => match s {
+            Ok(t) => {
+                let (_, lo, hi) = edge_language(*k);
                 if dec_in_range(t, lo, hi) {
                     Ok(())
                 } else {
@@ -919,7 +939,11 @@ impl Engine for EnvSim {
                     env_ev(rng, &mut tl, faulty);
                 }
             }
-            tl.push(Ev::Parse(gen_intent(rng, &spec, faulty)));
+            if rng.chance(1, 6) {
+                tl.push(Ev::Recover(gen_intent(rng, &spec, false), rng.below(3) as u8));
+            } else {
+                tl.push(Ev::Parse(gen_intent(rng, &spec, faulty)));
+            }
             if pi + 1 < n_parse && rng.chance(1, 3) {
                 for _ in 0..rng.usize(3) {
                     env_ev(rng, &mut tl, faulty);
@@ -1021,6 +1045,10 @@ fn class_of_kind(k: ErrorKind) -> &'static [&'static str] {
 
 /// Compare a real parse outcome with one model expectation; None = agrees.
 fn check_against(spec: &CmdSpec, ex: &Expect, real: &POut) -> Option<(&'static str, String, String)> {
+    check_against_skipping(spec, ex, real, None)
+}
+
+fn check_against_skipping(spec: &CmdSpec, ex: &Expect, real: &POut, skip: Option<&str>) -> Option<(&'static str, String, String)> {
     match real {
         POut::Panic { msg, file } => Some(("panic", file.clone(), format!("parse panicked: {msg}"))),
         POut::Err { kind, rendered, .. } => {
@@ -1055,6 +1083,9 @@ fn check_against(spec: &CmdSpec, ex: &Expect, real: &POut) -> Option<(&'static s
             for (li, exp) in ex.levels.iter().enumerate() {
                 let ids: Vec<&ArgSpec> = level_spec.args.iter().chain(inherited.iter().copied()).collect();
                 for a in &ids {
+                    if skip == Some(a.id.as_str()) {
+                        continue;
+                    }
                     let got_src = match catch(|| cur.value_source(&a.id)) {
                         Ok(s) => src_of(s),
                         Err(p) => return Some(("panic", "value_source".into(), format!("value_source({}) panicked: {}", a.id, p.msg))),
@@ -1078,6 +1109,9 @@ fn check_against(spec: &CmdSpec, ex: &Expect, real: &POut) -> Option<(&'static s
                 }
                 // a group's reported source is the strongest origin among its explicit members
                 for g in &level_spec.groups {
+                    if skip.map(|s| g.args.iter().any(|x| x == s)).unwrap_or(false) {
+                        continue;
+                    }
                     let mut best: Option<Src> = None;
                     for id in &g.args {
                         if let Some(e) = exp.get(id) {
@@ -1098,7 +1132,7 @@ fn check_against(spec: &CmdSpec, ex: &Expect, real: &POut) -> Option<(&'static s
                 // including levels above its definition; the statement only says that defaults never
                 // count as presence, so `true` is tolerated when some global is explicit in the chain
                 let explicit_global_somewhere = ex.levels.iter().any(|l| l.iter().any(|(id, e)| e.src != Src::Default && find_arg(spec, id).map(|a| a.global).unwrap_or(false)));
-                if got_present != ex.args_present[li] && !(got_present && explicit_global_somewhere) {
+                if got_present != ex.args_present[li] && !(got_present && explicit_global_somewhere) && skip.is_none() {
                     return Some(("args-present", "level".into(), format!("level {li}: args_present = {got_present}, the model says {}", ex.args_present[li])));
                 }
                 if li + 1 < ex.levels.len() {
@@ -1193,6 +1227,49 @@ fn exec_timeline(sc: &C06Sc, log: &mut Log, out: &mut Outcome, touched: &mut Vec
                 shape.add(3);
                 out.count("op.define");
                 ev!(log, "{i} define (snapshot of {} variables)", env_def.len());
+            }
+            Ev::Recover(intent, kind) => {
+                if cmd.is_none() {
+                    continue;
+                }
+                // what the model says about the line without the fault; value errors stop clap at that
+                // earlier point, so only lines whose values are all inside their languages are used
+                let mut ex = model(&sc.spec, intent, &env_now);
+                if ex.errors.iter().any(|(c, _)| *c == "value" || *c == "value-non-utf8") {
+                    continue;
+                }
+                // rule errors are not reported under ignore_errors (validation does not run after a fault)
+                ex.errors.clear();
+                let mut level = &sc.spec;
+                for l in &intent.levels {
+                    match l.sub.and_then(|k| level.subs.get(k)) {
+                        Some(sub) => level = sub,
+                        None => break,
+                    }
+                }
+                let used: Vec<&str> = intent.levels.iter().flat_map(|l| l.occs.iter().map(|o| o.arg.as_str())).collect();
+                let flag = level.args.iter().find(|a| !a.takes_values() && a.long.is_some() && !a.global && !used.contains(&a.id.as_str()) && a.overrides.is_empty() && matches!(a.action, Action::SetTrue | Action::SetFalse | Action::Count));
+                let (tail, skip): (String, Option<&str>) = match (*kind % 3, flag) {
+                    (2, Some(f)) => (format!("--{}=oops", f.long.as_ref().unwrap()), Some(f.id.as_str())),
+                    (1, _) => ("-#".to_string(), None),
+                    _ => ("--zzunknown".to_string(), None),
+                };
+                let mut spec2 = sc.spec.clone();
+                spec2.set(CmdSetting::IgnoreErrors);
+                let mut c2 = build_cmd(&spec2);
+                let mut argv = print_intent(&sc.spec, intent);
+                argv.push(OsString::from(&tail));
+                let real = outcome_of(catch(|| c2.try_get_matches_from_mut(argv.iter().cloned())));
+                shape.add(5 + *kind as u64 % 3);
+                out.count("op.parse_recovering_from_a_fault");
+                out.count_dyn(format!("fault.unparsable_token_under_ignore_errors_{}", ["unknown_long", "unknown_short", "value_for_flag"][if skip.is_some() { 2 } else { (*kind % 3).min(1) as usize }]));
+                out.comparisons += 1;
+                out.nontrivial = true;
+                ev!(log, "{i} recovering parse {:?} -> {}", argv, real.class());
+                if let Some((clause, site, detail)) = check_against_skipping(&sc.spec, &ex, &real, skip) {
+                    out.violate(clause, format!("recover/{site}"), format!("event {i}, argv {:?} under ignore_errors(true), env {:?}: {detail}", argv, env_now.iter().map(|(k, v)| format!("{k}={}", esc(v))).collect::<Vec<_>>()));
+                    break;
+                }
             }
             Ev::Parse(intent) => {
                 let Some(c) = cmd.as_mut() else { continue };
